@@ -21,6 +21,8 @@ def op_strategy(kind, none_p=True, only=None):
     n = node_of(kind)
     n_or_none = st.one_of(n, n, n, n, n, n, n, n, st.none()) if none_p else n
     e = eid_ref
+    # for operations that only do something on an existing edge: mostly IDs that exist right now
+    ex = st.one_of(nets.eid_existing, nets.eid_existing, nets.eid_existing, eid_ref)
     e_or_none = st.one_of(e, e, e, e, e, e, e, e, st.none()) if none_p else e
     a = attrs()
     b = st.booleans()
@@ -33,17 +35,20 @@ def op_strategy(kind, none_p=True, only=None):
     pairct = st.sampled_from(["list", "tuple"])
     direction = st.sampled_from(["in", "out", "in", "out", "in", "out", "sideways"])
 
+    # an explicit ID in a bulk format may be None (one in fifteen): it must be refused like a None member
+    eb = st.one_of([e] * 14 + [st.none()]) if none_p else e
+
     def bulk(fmt):
         if fmt == 1:
             items = st.lists(st.tuples(edge, ct, pairct).map(list), max_size=3)
         elif fmt == 2:
-            items = st.lists(st.tuples(edge, ct, pairct, e).map(list), max_size=3)
+            items = st.lists(st.tuples(edge, ct, pairct, eb).map(list), max_size=3)
         elif fmt == 3:
             items = st.lists(st.tuples(edge, ct, pairct, a).map(list), max_size=3)
         elif fmt == 4:
-            items = st.lists(st.tuples(edge, ct, pairct, e, a).map(list), max_size=3)
+            items = st.lists(st.tuples(edge, ct, pairct, eb, a).map(list), max_size=3)
         else:
-            items = st.lists(st.tuples(e, edge, ct, pairct).map(list), max_size=3)
+            items = st.lists(st.tuples(eb, edge, ct, pairct).map(list), max_size=3)
         return st.tuples(st.just("add_edges_from"), st.just(fmt), items, a, outer).map(list)
 
     setattr_modes = lambda key: st.one_of(  # noqa: E731
@@ -65,11 +70,11 @@ def op_strategy(kind, none_p=True, only=None):
         (2, "add_edges_from", bulk(3)),
         (2, "add_edges_from", bulk(4)),
         (2, "add_edges_from", bulk(5)),
-        (2, "set_edge_attributes", setattr_modes(e).map(lambda t: ["set_edge_attributes"] + list(t))),
+        (2, "set_edge_attributes", setattr_modes(ex).map(lambda t: ["set_edge_attributes"] + list(t))),
         (5, "add_node_to_edge", st.tuples(st.just("add_node_to_edge"), e_or_none, n_or_none, direction).map(list)),
-        (3, "remove_edge", st.tuples(st.just("remove_edge"), e).map(list)),
+        (3, "remove_edge", st.tuples(st.just("remove_edge"), ex).map(list)),
         (4, "remove_edges_from", st.tuples(st.just("remove_edges_from"), nets.eid_removal_list).map(list)),
-        (5, "remove_node_from_edge", st.tuples(st.just("remove_node_from_edge"), e, nm, direction, b).map(list)),
+        (5, "remove_node_from_edge", st.tuples(st.just("remove_node_from_edge"), ex, nm, direction, b).map(list)),
         (1, "set_net_attr", st.tuples(st.just("set_net_attr"), st.sampled_from(["name", "tag"]), nets.attr_value).map(list)),
         (0.5, "clear", st.tuples(st.just("clear"), b).map(list)),
         (1, "cleanup", st.tuples(st.just("cleanup"), b, b).map(list)),
@@ -90,7 +95,9 @@ def init_strategy(kind):
     return st.one_of(
         st.just(["empty"]),
         st.tuples(st.just("edgelist"), st.lists(edge, max_size=4)).map(list),
+        st.tuples(st.just("edgelist"), st.lists(edge, min_size=3, max_size=6)).map(list),  # start networks with several edges
         st.tuples(st.just("edgedict"), st.lists(st.tuples(eid_literal, edge).map(list), max_size=4, unique_by=lambda t: repr(t[0]))).map(list),
+        st.tuples(st.just("edgedict"), st.lists(st.tuples(eid_literal, edge).map(list), min_size=3, max_size=6, unique_by=lambda t: repr(t[0]))).map(list),
         st.tuples(st.just("copyof"), st.lists(st.tuples(eid_literal, edge).map(list), max_size=3, unique_by=lambda t: repr(t[0]))).map(list),
         # a fresh network whose only edge was added singly under a falsy explicit ID (0, 0.0, numpy 0)
         st.tuples(st.just("first-explicit"), st.tuples(st.lists(n, min_size=1, max_size=3), sd).map(list), st.sampled_from(["int", "int", "float", "npint"])).map(list),
@@ -255,12 +262,14 @@ class Model:
             dict(self.net),
         )
 
-    def add_edge(self, edge, idx, attr, fresh):
+    def add_edge(self, edge, idx, attr, fresh, explicit=False):
         tail, head = list(edge[0]), list(edge[1])
         if idx is not None and idx in self.edges:
             return
         if None in tail or None in head:
             raise Reject("None member")
+        if explicit and idx is None:
+            raise Reject("None as an explicit edge ID (bulk formats 2, 4, 5)")
         if idx is None:
             idx = fresh()
         for n in tail + head:
@@ -338,7 +347,7 @@ class Model:
                     ed, idx, ea = it[1], it[0], {}
                 a = dict(attr)
                 a.update(ea)
-                self.add_edge(ed, idx, a, fresh)
+                self.add_edge(ed, idx, a, fresh, explicit=fmt in (2, 4, 5))
         elif name == "add_node_to_edge":
             e, n, d = op[1], op[2], op[3]
             if d not in ("in", "out") or e is None or n is None:
